@@ -40,6 +40,10 @@ def header(rng, eol, subset=None):
         if rng.random() < 0.15:
             lines.append("%s* external/cwe/cwe-%d" % (indent, rng.randint(1, 999)))
     lines.append(indent + "*/")
+    if rng.random() < 0.2:
+        # a one-line comment between the header and the query (a review note); the header's values are '*/'-free and
+        # its closing line stands alone, as the property says
+        lines.append(rng.choice(["/* reviewed */", "/* TODO tighten */", "/** see above */", "/* FROM here on the query */"]))
     return lines, meta
 
 
